@@ -55,7 +55,18 @@ def _count_exprs(node, mod):
                 out.append(n.args[0])
             elif c == "itertools.islice" and len(n.args) == 2:
                 out.append(n.args[1])
+            elif c == "itertools.islice" and len(n.args) >= 3 and isinstance(n.args[2], ast.Constant) and n.args[2].value is None:
+                out.append(n.args[1])           # islice(x, start, None): start items are dropped
     return out
+
+
+def _clamped(expr):
+    """the count goes through max(., 0) (islice raises ValueError for a negative bound)"""
+    for n in ast.walk(expr):
+        if isinstance(n, ast.Call) and isinstance(n.func, ast.Name) and n.func.id == "max" and len(n.args) == 2 \
+                and any(isinstance(a, ast.Constant) and a.value == 0 for a in n.args):
+            return True
+    return False
 
 
 def run(chk, repo):
@@ -419,6 +430,11 @@ def run(chk, repo):
             for c in counts:
                 chk.decide(_is_rounding_of(c, par[0]), "C03.inplace", W("Stream." + name), "count: " + unparse(c),
                            why="%s(n) must act on exactly n items (after rounding), no offset" % name, node=c)
+                par_ = getattr(c, "_parent", None)
+                if isinstance(par_, ast.Call) and canon_call(mod, par_) == "itertools.islice":
+                    chk.decide(_clamped(c), "C03.inplace", W("Stream." + name), "count clamped at 0: " + unparse(c),
+                               why="itertools.islice raises ValueError for a negative bound: %s(n) with n < 0 must "
+                                   "behave as n = 0" % name, node=c)
             reads_old = any(_self_data(n) and isinstance(n.ctx, ast.Load) for n in own_nodes(fn)) \
                 or "self._data" in helper_args
             chk.decide(reads_old, "C03.inplace", W("Stream." + name), "new iterator derived from old self._data",
